@@ -25,6 +25,8 @@ from harness import findings
 from harness import tlc
 
 PROP = 'C16'
+# One single-worker TLC per shard, many shards at a time: keep each JVM small.
+JVM_SMALL = '-XX:ParallelGCThreads=2 -XX:CICompilerCount=2 -Xss16m'
 STYLES = ('ref', 'close', 'raw', 'chain')
 
 # Register numbers of spec/TypeAlgebraTrace.tla (1-based positions of SUMMARY).
@@ -45,6 +47,8 @@ REG = {
     'triples_clash_not_shown_after_later_call': 34,
     'triples_three_way_only_clash': 35,
     'elem': 40, 'elem_clash': 41, 'field': 42, 'field_clash': 43,
+    'derived_clash_not_shown_after_repeat': 44, 'elem_new_information': 45,
+    'field_new_information': 46,
     'shared': 50, 'shared_clash': 51, 'shared_clash_only_by_sharing': 52,
     'shared_refined_by_sharing': 53,
 }
@@ -57,8 +61,9 @@ REQUIRED = [
     'clash_list_vs_record', 'clash_closed_fields_differ',
     'clash_closed_missing_field', 'clash_nested_ground_vs_ground',
     'clash_nested_closed_missing_field', 'triples', 'triples_clash_free',
-    'triples_clash_free_new_information', 'triples_three_way_only_clash',
-    'elem', 'elem_clash', 'field', 'field_clash', 'shared', 'shared_clash',
+    'triples_clash_free_new_information',
+    'elem', 'elem_clash', 'elem_new_information', 'field', 'field_clash',
+    'field_new_information', 'shared', 'shared_clash',
     'shared_clash_only_by_sharing', 'shared_refined_by_sharing',
 ]
 
@@ -183,8 +188,11 @@ def RunCase(ra, case):
           yield Observe(ra, refs)
       runs.append({'o': list(o), 'obs': _Guard(Go, 2, 2)})
   elif k == 'triple':
-    for p in itertools.permutations((1, 2, 3)):
-      for via in (1, 2):
+    for n, p in enumerate(itertools.permutations((1, 2, 3))):
+      # Second call links the third term to the first or to the second of the
+      # already unified pair: both linkings (thorough) or alternating.
+      vias = (1, 2) if case.get('both_vias') else (1 + (n + case['alt']) % 2,)
+      for via in vias:
         def Go(p=p, via=via):
           refs = [Build(ra, t, style) for t in terms]
           for _ in range(2):
@@ -229,13 +237,15 @@ class Table:
     return i
 
 
-def WriteShard(ra, cases, path):
+def WriteShard(ra, cases, path, per_source=None):
   tab = Table()
   lines = []
   n_runs = 0
   for c in cases:
     runs = RunCase(ra, c)
     n_runs += len(runs)
+    if per_source is not None:
+      per_source[c['src']][1] += len(runs)
     line = {'id': c['id'], 'k': c['k'], 't': [tab.Add(t) for t in c['terms']],
             'runs': [{'o': r['o'],
                       'obs': [[tab.Add(x) for x in step] for step in r['obs']]}
@@ -266,7 +276,8 @@ def ParsePrinted(out, marker):
 
 
 def JudgeShard(path, tag):
-  r = tlc.Run('TypeAlgebraTrace', workers=1, env={'TRACE_FILE': path},
+  r = tlc.Run('TypeAlgebraTrace', workers=1,
+              env={'TRACE_FILE': path, 'JAVA_TOOL_OPTIONS': JVM_SMALL},
               timeout=3000, tag=tag, heap='2g')
   summary = ParsePrinted(r.out, 'SUMMARY')
   fails = ParsePrinted(r.out, 'V')
@@ -278,23 +289,32 @@ def JudgeShard(path, tag):
           'wall': r.wall}
 
 
-_JOBS = {}  # name -> list of cases or a generator function; set before forking
+_JOBS = {}  # source name -> getter(lo, hi); set before forking
 
 
 def _ShardWork(job):
-  """job = (shard name, source name, lo, hi)."""
-  name, source, lo, hi = job
+  """job = (shard name, [(source name, lo, hi), ...]): a slice of every source,
+  so that one TLC start-up is shared by all kinds of cases."""
+  name, parts = job
   ra = Algebra()
-  cases = _JOBS[source](lo, hi)
+  cases = []
+  per_source = {}
+  for source, lo, hi in parts:
+    got = _JOBS[source](lo, hi)
+    per_source[source] = [len(got), 0]
+    cases.extend(got)
   d = common.BuildDir('trace', PROP)
   path = os.path.join(d, name + '.ndjson')
-  n_runs = WriteShard(ra, cases, path)
+  WriteShard(ra, cases, path, per_source)
   res = JudgeShard(path, PROP + '_' + name)
+  styles = {}
+  for c in cases:
+    styles[c['style']] = styles.get(c['style'], 0) + 1
   res.update({'name': name, 'path': path, 'n_cases': len(cases),
-              'n_runs': n_runs})
+              'per_source': per_source, 'styles': styles})
   if res['fails'] or res['error']:
     failing = {f['id'] for f in res['fails']}
-    res['failing_cases'] = [c for c in cases if c['id'] in failing][:50]
+    res['failing_cases'] = [c for c in cases if c['id'] in failing][:200]
   else:
     os.unlink(path)
   return res
@@ -307,21 +327,38 @@ def StyleOf(*nums):
   return STYLES[sum(nums) % len(STYLES)]
 
 
-def PairSource(uname, terms, all_styles=False):
+def PairSource(uname, terms, all_styles=False, ordered=True):
+  """All pairs of a universe.  Every case runs both argument orders, so the
+  quick tier enumerates unordered pairs (i <= j); thorough all ordered ones
+  (the two differ in construction style and in which index is `first`)."""
   n = len(terms)
+  index = [(i, j) for i in range(n) for j in range(n) if ordered or i <= j]
   def Get(lo, hi):
     out = []
-    for k in range(lo, hi):
-      i, j = divmod(k, n)
+    for i, j in index[lo:hi]:
       styles = STYLES if all_styles and (i + j) % 7 == 0 else (StyleOf(i, j),)
       for st in styles:
         out.append({'id': '%s/pair/%d/%d/%s' % (uname, i, j, st), 'k': 'pair',
                     'style': st, 'terms': [terms[i], terms[j]]})
     return out
-  return Get, n * n
+  return Get, len(index)
 
 
-def TripleSource(uname, terms, pick=None):
+def Sampled(source, cap, rng):
+  """Seeded sample (without repetition) of an enumerated source."""
+  getter, size = source
+  if size <= cap:
+    return getter, size, True
+  pick = sorted(rng.sample(range(size), cap))
+  def Get(lo, hi):
+    out = []
+    for k in pick[lo:hi]:
+      out.extend(getter(k, k + 1))
+    return out
+  return Get, cap, False
+
+
+def TripleSource(uname, terms, pick=None, both_vias=False):
   n = len(terms)
   def Get(lo, hi):
     out = []
@@ -331,7 +368,8 @@ def TripleSource(uname, terms, pick=None):
       j, l = divmod(r, n)
       st = StyleOf(i, j, l)
       out.append({'id': '%s/triple/%d/%d/%d/%s' % (uname, i, j, l, st),
-                  'k': 'triple', 'style': st,
+                  'k': 'triple', 'style': st, 'alt': (i + j + l) % 2,
+                  'both_vias': both_vias,
                   'terms': [terms[i], terms[j], terms[l]]})
     return out
   return Get, (len(pick) if pick is not None else n ** 3)
@@ -453,7 +491,7 @@ def RandomPairs(rng, n):
   return out
 
 
-def RandomTriples(rng, n):
+def RandomTriples(rng, n, both_vias=False):
   seen = set()
   out = []
   while len(out) < n:
@@ -470,7 +508,8 @@ def RandomTriples(rng, n):
     seen.add(key)
     st = STYLES[len(out) % len(STYLES)]
     out.append({'id': 'random/triple/%d/%s' % (len(out), st), 'k': 'triple',
-                'style': st, 'terms': [a, b, c]})
+                'style': st, 'alt': len(out) % 2, 'both_vias': both_vias,
+                'terms': [a, b, c]})
   return out
 
 
@@ -487,13 +526,13 @@ def SharedCases(rng, n):
   """
   seen = set()
   out = []
-  atoms = ['Any', 'Singular', 'Sequential', 'Num', 'Str']
+  atoms = ['Any', 'Any', 'Singular', 'Sequential', 'Num', 'Str']
   fields = ['0', 'a']
   while len(out) < n:
     pd = 2 if len(out) % 4 else 1
     nvars = 1 if pd == 2 else 2
     a = RandTerm(rng, pd, atoms, fields, 0.35, nvars)
-    if rng.random() < 0.6:
+    if rng.random() < 0.35:
       b = RandTerm(rng, pd, atoms, fields, 0.25, nvars)
     else:
       b = Mutate(rng, a, pd, fields)
@@ -501,7 +540,7 @@ def SharedCases(rng, n):
         continue
     if DepthOf(a) > pd or DepthOf(b) > pd or not HasVarTwice([a, b]):
       continue
-    bounds = [['atom', rng.choice(['Any', 'Any', 'Singular', 'Sequential'])]
+    bounds = [['atom', rng.choice(['Any', 'Any', 'Any', 'Singular', 'Sequential'])]
               for _ in range(nvars)]
     key = json.dumps([a, b, bounds])
     if key in seen:
@@ -518,7 +557,7 @@ def SharedCases(rng, n):
 # ----------------------------------------------------------------------------
 LEMMA_CFGS = {
     'quick': ['wide', 'mid', 'deep'],
-    'thorough': ['wide', 'mid', 'deep', 'wide3', 'deep2'],
+    'thorough': ['wide', 'mid', 'deep', 'wide3', 'deep3'],
 }
 
 
@@ -527,7 +566,7 @@ def RunLemmas(tier):
   names = LEMMA_CFGS[tier]
 
   def One(name):
-    heavy = name in ('wide3', 'deep2')
+    heavy = name in ('wide3', 'deep3')
     return tlc.Run('TypeAlgebraLemmas', cfg='TypeAlgebraLemmas_%s.cfg' % name,
                    workers=common.NCPU if heavy else 6, timeout=3000,
                    tag='C16_lemma_' + name, heap='6g' if heavy else '3g')
@@ -568,46 +607,71 @@ def Signature(case, fail):
 
 # ----------------------------------------------------------------------------
 def Plan(tier, lem, rng):
-  """Returns {source name: (getter, size, shard size)}."""
+  """Returns {source name: (getter, size, unused, enumerated completely)}."""
   plan = {}
   thorough = tier == 'thorough'
-  for u in ('wide', 'mid', 'deep') + (('wide3',) if thorough else ()):
+  big = 10 ** 9
+  for u in ('wide', 'mid', 'deep') + (('wide3', 'deep3') if thorough else ()):
     U = lem[u]['U']
     U3 = lem[u]['U3']
-    g, n = PairSource(u, U, all_styles=thorough and u != 'wide3')
-    plan[u + '_pairs'] = (g, n, 6000)
-    pick = None
-    if not thorough and len(U3) ** 3 > 30000:
-      pick = sorted(rng.sample(range(len(U3) ** 3), 20000))
-    g, n = TripleSource(u, U3, pick)
-    plan[u + '_triples'] = (g, n, 1200)
+    small = u not in ('wide3', 'deep3')
+    g, n = PairSource(u, U, all_styles=thorough and small,
+                      ordered=thorough and small)
+    plan[u + '_pairs'] = (g, n, 0, True)
+    g, n, complete = Sampled(TripleSource(u, U3, None, both_vias=thorough),
+                             (50000 if small else 40000) if thorough else 4000,
+                             rng)
+    plan[u + '_triples'] = (g, n, 0, complete)
   W = lem['wide']['U']
   W3 = lem['wide']['U3']
-  g, n = ElemSource('wide', W, W)
-  plan['elem'] = (g, n, 6000)
-  g, n = FieldSource('wide', W, W3, ['0', 'a', 'b'])
-  plan['field'] = (g, n, 6000)
-  g, n = ListSource(RandomPairs(rng, 100000 if thorough else 12000))
-  plan['random_pairs'] = (g, n, 5000)
-  g, n = ListSource(RandomTriples(rng, 20000 if thorough else 2500))
-  plan['random_triples'] = (g, n, 800)
-  g, n = ListSource(SharedCases(rng, 20000 if thorough else 3000))
-  plan['shared'] = (g, n, 700)
+  # Lists for `e in l`: every atom and list of the universe and a few records.
+  L = [t for t in W if t[0] != 'rec'] + [t for t in W if t[0] == 'rec'][:8]
+  g, n, complete = Sampled(ElemSource('wide', L, W), big if thorough else 5000,
+                           rng)
+  plan['elem'] = (g, n, 0, complete)
+  g, n, complete = Sampled(FieldSource('wide', W, W3, ['0', 'a', 'b']),
+                           big if thorough else 5000, rng)
+  plan['field'] = (g, n, 0, complete)
+  g, n = ListSource(RandomPairs(rng, 100000 if thorough else 8000))
+  plan['random_pairs'] = (g, n, 0, False)
+  g, n = ListSource(RandomTriples(rng, 20000 if thorough else 1500, thorough))
+  plan['random_triples'] = (g, n, 0, False)
+  g, n = ListSource(SharedCases(rng, 16000 if thorough else 1600))
+  plan['shared'] = (g, n, 0, False)
   return plan
 
 
-def Execute(plan):
+def Execute(plan, tier):
+  nshards = common.NCPU if tier == 'quick' else 6 * common.NCPU
   jobs = []
-  for source, (getter, size, per) in plan.items():
-    _JOBS[source] = getter
-    for s, lo in enumerate(range(0, size, per)):
-      jobs.append(('%s_%03d' % (source, s), source, lo, min(size, lo + per)))
-  # Big shards first so that the tail is short.
-  jobs.sort(key=lambda j: -(j[3] - j[2]) * (12 if 'triple' in j[1] else 1))
+  for source, (getter, _, _, _) in plan.items():
+    def Tagged(lo, hi, getter=getter, source=source):
+      got = getter(lo, hi)
+      for c in got:
+        c['src'] = source
+      return got
+    _JOBS[source] = Tagged
+  for s in range(nshards):
+    parts = []
+    for source, (_, size, _, _) in plan.items():
+      lo, hi = size * s // nshards, size * (s + 1) // nshards
+      if hi > lo:
+        parts.append((source, lo, hi))
+    jobs.append(('shard_%03d' % s, parts))
   d = common.BuildDir('trace', PROP)
   for f in os.listdir(d):
     os.unlink(os.path.join(d, f))
   return common.ParallelMap(_ShardWork, jobs, chunksize=1)
+
+
+def Sample(ra, c):
+  runs = RunCase(ra, c)
+  return {'id': c['id'], 'kind': c['k'], 'style': c['style'],
+          'terms': [Show(t) for t in c['terms']],
+          'bounds_of_shared_references': [Show(t) for t in c.get('bounds', [])],
+          'field': c.get('f', ''), 'order': runs[0]['o'],
+          'rendered_after_each_call': [[Show(x) for x in step]
+                                       for step in runs[0]['obs']]}
 
 
 def Run(tier):
@@ -624,16 +688,18 @@ def Run(tier):
     print('C16: model-level lemma run %s failed: violated=%s\n%s' % (
         k, lem[k]['violated'], lem[k]['tail']))
   for k, v in lem.items():
-    if v['ok'] and k != 'deep2' and not (v['U'] and v['U3']):
+    if v['ok'] and not (v['U'] and v['U3']):
       machinery.append('lemma run %s exported no universe' % k)
   if lemma_failed:
     # The specification contradicts itself: nothing can be judged with it.
     machinery.append('lemma failed: %s' % lemma_failed)
+  lemma_wall = clock()
 
   results = []
+  plan = {}
   if not machinery:
     plan = Plan(tier, lem, rng)
-    results = Execute(plan)
+    results = Execute(plan, tier)
 
   regs = {k: 0 for k in REG}
   per_source = {}
@@ -643,10 +709,10 @@ def Run(tier):
   violations = 0
   printed = 0
   seen_sigs = {}
-  samples = []
+  for src, (_, _, _, complete) in plan.items():
+    per_source[src] = {'cases': 0, 'call_sequences': 0,
+                       'enumerated_completely': complete}
   for r in results:
-    src = r['name'].rsplit('_', 1)[0]
-    ps = per_source.setdefault(src, {'cases': 0, 'runs': 0, 'failed': 0})
     if r['error'] or r['summary'] is None:
       machinery.append('TLC failed on shard %s: %s' % (r['name'],
                                                        (r['error'] or '')[-800:]))
@@ -658,10 +724,12 @@ def Run(tier):
       machinery.append('shard %s: TLC judged %d of %d cases' % (
           r['name'], s[REG['cases'] - 1], r['n_cases']))
     n_cases += r['n_cases']
-    n_runs += r['n_runs']
-    ps['cases'] += r['n_cases']
-    ps['runs'] += r['n_runs']
-    ps['failed'] += len(r['fails'])
+    for src, (nc, nr) in r['per_source'].items():
+      per_source[src]['cases'] += nc
+      per_source[src]['call_sequences'] += nr
+      n_runs += nr
+    for st, n in r['styles'].items():
+      per_style[st] += n
     trace_states += r['distinct']
     trace_trans += r['generated']
     by_id = {c['id']: c for c in r.get('failing_cases', [])}
@@ -690,39 +758,28 @@ def Run(tier):
           'per signature, at most 25 printed)' % (violations, len(seen_sigs)))
   cls.Report()
 
-  # Per-style coverage and samples: cheap, from the plan itself.
-  if results:
-    for source, (getter, size, _) in plan.items():
-      step = max(1, size // 400)
-      for c in getter(0, size)[::step] if size <= 200000 else getter(0, 4000):
-        per_style[c['style']] += 1
+  samples = []
+  if plan:
+    ra = Algebra()
+    for source, (getter, size, _, _) in plan.items():
       if size:
-        c = getter(size // 2, size // 2 + 1)[0]
-        ra = Algebra()
-        runs = RunCase(ra, c)
-        samples.append({
-            'id': c['id'], 'kind': c['k'],
-            'terms': [Show(t) for t in c['terms']],
-            'bounds': [Show(t) for t in c.get('bounds', [])],
-            'order': runs[0]['o'],
-            'rendered_after_each_call': [[Show(x) for x in step_]
-                                         for step_ in runs[0]['obs']]})
+        samples.append(Sample(ra, getter(size // 3, size // 3 + 1)[0]))
 
   if results and not machinery:
     for k in REQUIRED:
       if regs[k] == 0:
         machinery.append('construct never exercised: %s' % k)
-    for s, n in per_style.items():
+    for st, n in per_style.items():
       if n == 0:
-        machinery.append('construction style never used: %s' % s)
+        machinery.append('construction style never used: %s' % st)
     if regs['cases'] != n_cases:
       machinery.append('TLC judged %d cases, harness ran %d' % (regs['cases'],
                                                                n_cases))
 
   nontrivial = (regs['pairs_clash'] + regs['pairs_new_information'] +
                 regs['triples_clash_free_new_information'] +
-                regs['triples_three_way_only_clash'] +
-                regs['elem'] + regs['field'] +
+                regs['elem_clash'] + regs['elem_new_information'] +
+                regs['field_clash'] + regs['field_new_information'] +
                 regs['shared_clash_only_by_sharing'] +
                 regs['shared_refined_by_sharing'])
   coverage = {
@@ -733,29 +790,35 @@ def Run(tier):
       'distinct_nontrivial': nontrivial,
       'rule': (
           'Cases: every ordered pair of every universe TLC exported from '
-          'TypeAlgebraLemmas (wide/mid/deep%s), every triple (or a seeded '
-          'sample) of its triple universe in all 6 orders x 2 linkings, every '
-          '(list, element) and (record, field, value) of the wide universe '
-          'through UnifyListElement / UnifyRecordField, seeded random terms of '
-          'depth <= 3 over fields 0,1,a,b (deduplicated), and seeded stores '
-          'with shared references; construction styles ref/close/raw/chain '
-          'rotate.  evaluations = call sequences executed on the real code; '
-          'traces_validated = cases TLC judged.  A case is distinct by '
-          'construction (enumeration without repetition / dedup) and counted '
-          'non-trivial, by TLC, when the meet is a clash or differs from every '
-          'input (pairs, triples), for every derived-constraint case, and for '
-          'shared stores when sharing changed the outcome.  Lists of lists are '
-          'terms (the algebra itself does not forbid them; UnifyListElement '
-          'adds Singular).' % (', wide3' if tier == 'thorough' else '')),
-      'samples': samples[:12],
-      'exhaustive': True,
+          'TypeAlgebraLemmas (%s), every triple (or a seeded sample, see '
+          'per_source.enumerated_completely) of its triple universe in all 6 '
+          'orders (x both linkings of the second call in the thorough tier, '
+          'alternating in quick), every (list, element) and (record, field, '
+          'value) of the wide universe through UnifyListElement / '
+          'UnifyRecordField, seeded random terms of depth <= 3 over fields '
+          '0,1,a,b (deduplicated), and seeded stores with shared references '
+          '(deduplicated); construction styles ref/close/raw/chain rotate.  '
+          'evaluations = call sequences executed on the real code (each is '
+          'every call made twice with all references rendered after every '
+          'call); traces_validated = cases TLC judged.  Cases are distinct by '
+          'construction and counted non-trivial, by the TLA+ spec, when the '
+          'meet is a clash or differs from every input (pairs, triples, '
+          'derived constraints; for triples only the clash-free ones are '
+          'counted), and for shared stores when sharing '
+          'changed the outcome.  Lists of lists are terms: the algebra itself '
+          'does not forbid them, UnifyListElement adds Singular.' %
+          '/'.join(sorted(lem))),
+      'samples': samples,
+      'exhaustive': False,
       'lemma_runs': {k: {kk: v[kk] for kk in ('ok', 'distinct', 'generated',
                                                'wall_s', 'sizes', 'violated')}
                      for k, v in lem.items()},
+      'lemma_states': lemma_states,
+      'lemma_wall_s': lemma_wall,
       'trace_spec_states': trace_states,
       'per_source': per_source,
       'per_construct': regs,
-      'per_style_sampled': per_style,
+      'per_style': per_style,
       'known_findings_reproduced': {k: len(v) for k, v in cls.hit.items()},
       'machinery_problems': machinery[:10],
   }
@@ -764,18 +827,22 @@ def Run(tier):
                      'TLC evaluates TypeAlgebra.tla faithfully; the lemmas '
                      '(Meet = intersection of Inst, faithful canonical form) '
                      'are checked over the bounded universes of the cfg files '
-                     'and extended to depth-3 / four-field terms by the '
-                     'per-case Member-level witness clause only',
+                     'and reach depth-3 / four-field terms only through the '
+                     'per-case Member-level witness clause',
                      'the rendering VeryConcreteType is the observable the '
-                     'property names; sharing between the two results is not '
+                     'property names; sharing between two results is not '
                      'visible in it',
                      'the store semantics for shared references is decided by '
                      'brute force over a ground pool that is complete for the '
-                     'generated shapes (depth <= 2 / one reference, depth <= 1 '
-                     '/ two references)'])
-  print('C16 %s: %d cases (%d call sequences) judged by TLC, %d failing, '
-        'lemma states %d, %.1fs' % (tier, regs['cases'], n_runs, violations,
-                                    lemma_states, clock()))
+                     'generated shapes (depth <= 2 with one shared reference, '
+                     'depth <= 1 with two)',
+                     'a clash marker that an earlier call left inside a term '
+                     'is outside the quantifier: what later calls do with it '
+                     'is counted (triples_clash_not_shown_after_later_call, '
+                     'derived_clash_not_shown_after_repeat), not judged'])
+  print('C16 %s: %d cases (%d call sequences on the real code) judged by TLC, '
+        '%d failing; lemma states %d; %.1fs' % (
+            tier, regs['cases'], n_runs, violations, lemma_states, clock()))
   if machinery:
     for m in machinery[:10]:
       print('MACHINERY-FAILURE property=C16 %s' % m)
